@@ -66,8 +66,12 @@ def extract(repo):
                     ok = "net.switch.et==element_type[0]" in body and SWITCH_ET.get(e) == e[0]
                 if ok and e in upd:
                     upd[e].append("switch")
-        elif test == "res_table_follows" and "net[res_table].set_index(pd.Index(new_index.values),inplace=True)" in body:
-            if "res_table='res_'+element_type" in t and "net[res_table].index.equals(net[element_type].index)" in t:
+        elif test == "res_table_follows" and ("net[res_table].set_index(pd.Index(new_index.values),inplace=True)" in body or
+                                              "net[res_table].set_index(pd.Index(new_index.loc[net[res_table].index].values),inplace=True)" in body):
+            # the result rows follow when the result index equals the element index, or (after the repair) when every result
+            # row belongs to an element: new_index maps old element labels to new ones
+            if "res_table='res_'+element_type" in t and ("net[res_table].index.equals(net[element_type].index)" in t or
+                                                          "net[res_table].index.isin(net[element_type].index).all()" in t):
                 for e in ELEMENTS:
                     upd[e].append("res_" + e)
     for n in ast.walk(fn):
